@@ -301,3 +301,81 @@ def build_dcop(case, cost_style="dict", agents=None):
     if agents:
         dcop.add_agents(agents)
     return dcop
+
+
+def gen_tree_factor_case(rng, max_vars=7, max_dom=3, objective=None, unique=True, palettes=("distinct", "neg"),
+                         var_costs=True, forest=True, tries=60):
+    """Acyclic factor graph (tree or forest) with, if `unique`, exactly one optimal assignment."""
+    for _ in range(tries):
+        objective_ = objective or rng.choice(["min", "max"])
+        n = rng.randint(1, max_vars)
+        names = _names(rng, n)
+        palette = rng.choice(list(palettes))
+        variables = []
+        for nm in names:
+            k = rng.randint(2, max_dom)
+            start = rng.choice([0, 1, 5])
+            dom = list(range(start, start + k))
+            if rng.random() < 0.3:
+                dom = rng.sample(["a", "b", "c", "d"], k)
+            v = {"name": nm, "domain": dom, "initial": None, "costs": None}
+            if var_costs and rng.random() < 0.3:
+                v["costs"] = [draw_cost(rng, palette) for _ in dom]
+            variables.append(v)
+        scopes = []
+        placed = [names[0]]
+        rest = names[1:]
+        while rest:
+            if forest and rng.random() < 0.12:
+                placed.append(rest.pop(0))  # new tree root (disconnected component)
+                continue
+            anchor = rng.choice(placed)
+            k = 2 if (len(rest) >= 2 and rng.random() < 0.3) else 1
+            new = [rest.pop(0) for _ in range(k)]
+            sc = [anchor] + new
+            rng.shuffle(sc)
+            scopes.append(sc)
+            placed.extend(new)
+        for nm in names:
+            if rng.random() < 0.3:
+                scopes.append([nm])
+        case = {"objective": objective_, "variables": variables, "constraints": [], "shape": "factor-tree",
+                "palette": palette}
+        vm = var_map(case)
+        for i, sc in enumerate(scopes):
+            size = 1
+            for nm in sc:
+                size *= len(vm[nm]["domain"])
+            case["constraints"].append({"name": "c%02d" % i, "scope": list(sc), "kind": "matrix",
+                                        "table": [draw_cost(rng, palette) for _ in range(size)]})
+        if not unique:
+            return case
+        best, args = brute_force(case)
+        if len(args) == 1:
+            case["optimum"] = best
+            case["optimal_assignment"] = args[0]
+            return case
+    return None
+
+
+def factor_graph_diameter(case):
+    """diameter (in edges) of the largest component of the bipartite variable/factor graph"""
+    adj = {}
+    for v in case["variables"]:
+        adj[v["name"]] = set()
+    for c in case["constraints"]:
+        adj[c["name"]] = set(c["scope"])
+        for n in c["scope"]:
+            adj[n].add(c["name"])
+    best = 0
+    for s in adj:
+        dist = {s: 0}
+        q = [s]
+        while q:
+            x = q.pop(0)
+            for y in adj[x]:
+                if y not in dist:
+                    dist[y] = dist[x] + 1
+                    q.append(y)
+        best = max(best, max(dist.values()))
+    return best
